@@ -455,7 +455,19 @@ class Lab:
                 simulated_full_match=c.get("full_match", False),
             )
             self.clients.append(cl)
-        self.fw = FlumineSimulation(client=self.clients[0])
+        if scenario.get("subclassed_sim_middleware"):
+            # a user's customised SimulatedMiddleware registered before the (simulated) client is added: it must stay
+            # the only simulated matching engine of the framework
+            from flumine.markets.middleware import SimulatedMiddleware
+
+            class CustomSimulatedMiddleware(SimulatedMiddleware):
+                pass
+
+            self.fw = FlumineSimulation()
+            self.fw.add_market_middleware(CustomSimulatedMiddleware())
+            self.fw.add_client(self.clients[0])
+        else:
+            self.fw = FlumineSimulation(client=self.clients[0])
         for cl in self.clients[1:]:
             self.fw.add_client(cl)
 
